@@ -308,8 +308,12 @@ def _replay_one(args):
     t = json.loads(tr)
     os.makedirs(d, exist_ok=True)
     for name, hx in t["files"].items():
+        os.makedirs(os.path.dirname(os.path.join(d, name)), exist_ok=True)
         with open(os.path.join(d, name), "wb") as f:
             f.write(bytes.fromhex(hx))
+    # the in-memory file system of the harness has no directories: the ones named by expected files exist
+    for name in t["expect_files"]:
+        os.makedirs(os.path.dirname(os.path.join(d, name)), exist_ok=True)
     env = {"PATH": os.environ.get("PATH", "/usr/bin:/bin"), "LC_ALL": "C", "TERM": "dumb", "TAGPATH": "/nonexistent/tags",
            "HOME": d}
     env.update(t["env"])
